@@ -46,13 +46,14 @@ structure Slot where
 
 def freeSlot : Slot := { inum := 0, name := [] }
 
-/-- `LookupName`: the first live slot with this name (names are unique in reachable states) -/
-def lookupSlots : List Slot → Bytes → Option (Nat × Nat)   -- (inum, slot index)
-  | slots, name =>
-    let rec go : List Slot → Nat → Option (Nat × Nat)
-      | [], _ => none
-      | s :: rest, i => if s.inum ≠ 0 ∧ s.name = name then some (s.inum, i) else go rest (i + 1)
-    go slots 0
+/-- scan from slot index `i` for the first live slot with this name -/
+def lookupGo (name : Bytes) : List Slot → Nat → Option (Nat × Nat)
+  | [], _ => none
+  | s :: rest, i => if s.inum ≠ 0 ∧ s.name = name then some (s.inum, i) else lookupGo name rest (i + 1)
+
+/-- `LookupName`: the first live slot with this name (names are unique in reachable states);
+    result: (inode number, slot index) -/
+def lookupSlots (slots : List Slot) (name : Bytes) : Option (Nat × Nat) := lookupGo name slots 0
 
 /-- `IsDirEmpty`: no live slot beyond the first two -/
 def dirEmpty (slots : List Slot) : Bool := (slots.drop 2).all fun s => s.inum = 0
@@ -238,6 +239,15 @@ def remNameAt (d : Inode) (idx : Nat) : Inode :=
 
 def maxWrite (s : FS) : Nat := s.wtmax
 
+/-- `InitInode` (+ `InitDir` / the symlink's target): the inode of a newly created object -/
+def freshInode (kind gen inum parent : Nat) (target : Array UInt8) : Inode :=
+  if kind = NF3DIR then
+    { kind := kind, gen := gen, size := 2 * DIRENTSZ,
+      slots := [{ inum := inum, name := [46] }, { inum := parent, name := [46, 46] }] }
+  else if kind = NF3LNK then
+    { kind := kind, gen := gen, size := target.size, content := [.write 0 target] }
+  else { kind := kind, gen := gen, size := 0 }
+
 /-- `doCreate` for the three kinds -/
 def doCreate (s : FS) (c : Choice) (dfh name : Bytes) (kind : Nat) (target : Array UInt8) :
     FS × Reply :=
@@ -256,15 +266,7 @@ def doCreate (s : FS) (c : Choice) (dfh name : Bytes) (kind : Nat) (target : Arr
       if c.inum < 2 ∨ c.inum ≥ s.ninode ∨ (s.get c.inum).kind ≠ 0 then
         (s, .badChoice "allocated inode number is not free")
       else
-        let old := s.get c.inum
-        let fresh : Inode := { kind := kind, gen := old.gen + 1, size := 0 }
-        let fresh : Inode :=
-          if kind = NF3DIR then
-            { fresh with slots := [{ inum := c.inum, name := [46] }, { inum := dino, name := [46, 46] }],
-                         size := 2 * DIRENTSZ }
-          else if kind = NF3LNK then
-            { fresh with content := [.write 0 target], size := target.size }
-          else fresh
+        let fresh := freshInode kind ((s.get c.inum).gen + 1) c.inum dino target
         match addName d c.slot c.inum name with
         | none => (s, .badChoice "directory slot is not free")
         | some d' =>
@@ -282,7 +284,9 @@ def doRemove (s : FS) (dfh name : Bytes) (isdir : Bool) : FS × Reply :=
     | none => (s, .fail .err)
     | some (cino, idx) =>
       let ch := s.get cino
-      if isdir ∧ ch.kind ≠ NF3DIR then (s, .fail .err)
+      -- (an entry naming a free inode cannot occur in a well-formed state; refuse it)
+      if ch.kind = 0 then (s, .fail .err)
+      else if isdir ∧ ch.kind ≠ NF3DIR then (s, .fail .err)
       else if isdir ∧ ¬ dirEmpty ch.slots then (s, .fail .err)
       else if ¬ isdir ∧ ch.kind = NF3DIR then (s, .fail .err)
       else
@@ -290,69 +294,83 @@ def doRemove (s : FS) (dfh name : Bytes) (isdir : Bool) : FS × Reply :=
         let s2 := s1.set cino (freeInode (s1.get cino))
         (s2, .done)
 
+/-- which directories a RENAME names: one handle, or two resolved by number and then checked
+    for their generations -/
+def renameDirs (s : FS) (ffh tfh : Bytes) : Option (Nat × Nat) :=
+  if ffh = tfh then (resolve s ffh).map fun d => (d, d)
+  else
+    let (fi, fg) := parseFh ffh
+    let (ti, tg) := parseFh tfh
+    match resolveNum s fi, resolveNum s ti with
+    | some a, some b =>
+      if (s.get a).gen ≠ fg ∨ (s.get b).gen ≠ tg then none else some (a, b)
+    | _, _ => none
+
+/-- an existing target of a RENAME is unlinked and freed first (`none`: the rename is refused) -/
+def unlinkTarget (s : FS) (td fino : Nat) (toL : Option (Nat × Nat)) : Option FS :=
+  match toL with
+  | none => some s
+  | some (tino, tidx) =>
+    let t := s.get tino
+    let f := s.get fino
+    if t.kind = 0 ∨ t.kind ≠ f.kind then none
+    else if t.kind = NF3DIR ∧ ¬ dirEmpty t.slots then none
+    else
+      let s1 := s.set td (remNameAt (s.get td) tidx)
+      some (s1.set tino (freeInode (s1.get tino)))
+
+/-- the source name is cleared and the target name added (`none`: refused) -/
+def moveName (s1 : FS) (c : Choice) (fd fidx td fino : Nat) (tname : Bytes) : Option (FS × Reply) :=
+  let s2 := s1.set fd (remNameAt (s1.get fd) fidx)
+  let dto := s2.get td
+  if dto.kind ≠ NF3DIR ∨ tname.length > MAXNAMELEN then none else
+  match addName dto c.slot fino tname with
+  | none => some (s1, .badChoice "directory slot is not free")
+  | some d' => some (s2.set td d', .done)
+
 /-- `NFSPROC3_RENAME` -/
 def doRename (s : FS) (c : Choice) (ffh fname tfh tname : Bytes) : FS × Reply :=
   if illegalName fname then (s, .fail .err) else
-  -- which directories?
-  let dirs : Option (Nat × Nat) :=
-    if ffh = tfh then (resolve s ffh).map fun d => (d, d)
-    else
-      let (fi, fg) := parseFh ffh
-      let (ti, tg) := parseFh tfh
-      match resolveNum s fi, resolveNum s ti with
-      | some a, some b =>
-        if (s.get a).gen ≠ fg ∨ (s.get b).gen ≠ tg then none else some (a, b)
-      | _, _ => none
-  match dirs with
+  match renameDirs s ffh tfh with
   | none => (s, .fail .stale)
   | some (fd, td) =>
     match lookupIn (s.get fd) fname with
     | none => (s, .fail .err)
     | some (fino, fidx) =>
       if fino = td then (s, .fail .err) else      -- a directory cannot be moved into itself
-      let toL := lookupIn (s.get td) tname
       -- rename onto itself
-      if fd = td ∧ (toL.map (·.1)) = some fino then (s, .done) else
-      -- an existing target is unlinked first
-      let step1 : Option FS :=
-        match toL with
-        | none => some s
-        | some (tino, tidx) =>
-          let t := s.get tino
-          let f := s.get fino
-          if t.kind ≠ f.kind then none
-          else if t.kind = NF3DIR ∧ ¬ dirEmpty t.slots then none
-          else
-            let s1 := s.set td (remNameAt (s.get td) tidx)
-            some (s1.set tino (freeInode (s1.get tino)))
-      match step1 with
+      if fd = td ∧ ((lookupIn (s.get td) tname).map (·.1)) = some fino then (s, .done) else
+      match unlinkTarget s td fino (lookupIn (s.get td) tname) with
       | none => (s, .fail .err)
       | some s1 =>
-        let s2 := s1.set fd (remNameAt (s1.get fd) fidx)
-        let dto := s2.get td
-        if dto.kind ≠ NF3DIR ∨ tname.length > MAXNAMELEN then (s, .fail .err) else
-        match addName dto c.slot fino tname with
-        | none => (s, .badChoice "directory slot is not free")
-        | some d' => (s2.set td d', .done)
+        match moveName s1 c fd fidx td fino tname with
+        | none => (s, .fail .err)
+        | some (_, .badChoice why) => (s, .badChoice why)
+        | some (s3, r) => (s3, r)
 
-/-- `dir.ApplyEnts` / `dir.Apply`: page through the slots from byte offset `start`.
-    `budget` is the per-entry accounting: given the name length it returns the increments of
-    the two counters; the page stops after the entry that makes a counter reach its limit. -/
-def page (slots : List Slot) (start : Nat) (lim1 lim2 : Nat) (inc1 inc2 : Nat → Nat) (n1 n2 : Nat) :
-    Bool × List (Slot × Nat) :=     -- (eof, entries with their cookies)
-  let rec go : List Slot → Nat → Nat → Nat → Bool × List (Slot × Nat)
-    | [], _, _, _ => (true, [])
-    | sl :: rest, idx, a, b =>
-      if idx * DIRENTSZ < start ∨ sl.inum = 0 then go rest (idx + 1) a b
+/-- the loop of `dir.ApplyEnts` / `dir.Apply` from slot index `idx` on: skip slots before the
+    start offset and free slots; emit a live slot with its cookie (the offset of the following
+    slot), add to the two counters, and stop after the entry that makes a counter reach its
+    limit.  Result: (eof, entries with cookies). -/
+def pageGo (start lim1 lim2 : Nat) (inc1 inc2 : Nat → Nat) :
+    List Slot → Nat → Nat → Nat → Bool × List (Slot × Nat)
+  | [], _, _, _ => (true, [])
+  | sl :: rest, idx, a, b =>
+    if idx * DIRENTSZ < start ∨ sl.inum = 0 then pageGo start lim1 lim2 inc1 inc2 rest (idx + 1) a b
+    else
+      if a + inc1 sl.name.length ≥ lim1 ∨ b + inc2 sl.name.length ≥ lim2 then
+        (false, [(sl, (idx + 1) * DIRENTSZ)])
       else
-        let a' := a + inc1 sl.name.length
-        let b' := b + inc2 sl.name.length
-        let e := (sl, (idx + 1) * DIRENTSZ)
-        if a' ≥ lim1 ∨ b' ≥ lim2 then (false, [e])
-        else
-          let (eof, es) := go rest (idx + 1) a' b'
-          (eof, e :: es)
-  go slots 0 n1 n2
+        ((pageGo start lim1 lim2 inc1 inc2 rest (idx + 1) (a + inc1 sl.name.length)
+            (b + inc2 sl.name.length)).1,
+         (sl, (idx + 1) * DIRENTSZ) ::
+          (pageGo start lim1 lim2 inc1 inc2 rest (idx + 1) (a + inc1 sl.name.length)
+            (b + inc2 sl.name.length)).2)
+
+/-- `dir.ApplyEnts` / `dir.Apply`: page through the slots from byte offset `start`. -/
+def page (slots : List Slot) (start : Nat) (lim1 lim2 : Nat) (inc1 inc2 : Nat → Nat) (n1 n2 : Nat) :
+    Bool × List (Slot × Nat) :=
+  pageGo start lim1 lim2 inc1 inc2 slots 0 n1 n2
 
 def readdirPage (slots : List Slot) (cookie count : Nat) : Bool × List (Slot × Nat) :=
   page slots cookie count (count + 1) (fun l => 16 + l + 8 + 8) (fun _ => 0) 64 0
